@@ -1,2 +1,180 @@
-use crate::NativeBody;
-pub fn register(_v: &mut Vec<(&'static str, NativeBody)>) {}
+//! C26 — vector builtins obey their laws (integer/bit kernels and small float kernels).
+use crate::{check, cover, harness, NativeBody, NativeSrc, Src};
+use inputlayer::vector_ops::{
+    dot_product, dot_product_int8, euclidean_distance_int8, euclidean_distance_squared,
+    hamming_distance, lsh_probes, manhattan_distance, manhattan_distance_int8,
+};
+
+pub fn b_hamming<S: Src>(s: &mut S) -> Result<(), String> {
+    let a = s.i64();
+    let b = s.i64();
+    let d = hamming_distance(a, b);
+    cover!(d == 64, "all bits differ");
+    cover!(d == 0, "equal");
+    check!(d == hamming_distance(b, a), "hamming symmetric");
+    check!(d >= 0 && d <= 64, "hamming in [0,64]");
+    check!((d == 0) == (a == b), "hamming zero iff equal");
+    Ok(())
+}
+harness!(c26_hamming, b_hamming, 2);
+
+fn binom(n: usize, k: usize) -> usize {
+    match k {
+        0 => 1,
+        1 => n,
+        2 => n * n.saturating_sub(1) / 2,
+        _ => n * n.saturating_sub(1) * n.saturating_sub(2) / 6,
+    }
+}
+
+/// probe sequence laws for a symbolic bucket and concrete (hyperplanes, probes)
+fn probes_laws<S: Src>(s: &mut S, h: usize, p: usize) -> Result<(), String> {
+    let bucket = s.i64();
+    let v = lsh_probes(bucket, h, p);
+    let b = h.min(62);
+    let all = 1 + binom(b, 1) + binom(b, 2) + binom(b, 3);
+    let want = p.min(all);
+    let mut r = Ok(());
+    if v.len() != want {
+        r = Err(String::from("probe count"));
+    } else if p > 0 && v[0] != bucket {
+        r = Err(String::from("probes start at the bucket"));
+    } else {
+        let mut i = 0;
+        while i < v.len() {
+            if i > 0 && hamming_distance(bucket, v[i]) < hamming_distance(bucket, v[i - 1]) {
+                r = Err(String::from("probes non-decreasing in Hamming distance"));
+            }
+            let mut j = 0;
+            while j < i {
+                if v[j] == v[i] {
+                    r = Err(String::from("probes distinct"));
+                }
+                j += 1;
+            }
+            i += 1;
+        }
+    }
+    cover!(v.len() == want, "expected length reached");
+    std::mem::forget(v);
+    r
+}
+
+macro_rules! probes {
+    ($h:ident, $b:ident, $hp:expr, $p:expr, $u:expr) => {
+        pub fn $b<S: Src>(s: &mut S) -> Result<(), String> {
+            probes_laws(s, $hp, $p)
+        }
+        harness!($h, $b, $u);
+    };
+}
+probes!(c26_probes_h0_p3, b_probes_h0_p3, 0, 3, 6);
+probes!(c26_probes_h1_p4, b_probes_h1_p4, 1, 4, 6);
+probes!(c26_probes_h2_p0, b_probes_h2_p0, 2, 0, 6);
+probes!(c26_probes_h2_p8, b_probes_h2_p8, 2, 8, 10);
+probes!(c26_probes_h3_p8, b_probes_h3_p8, 3, 8, 10);
+probes!(c26_probes_h4_p16, b_probes_h4_p16, 4, 16, 18);
+probes!(c26_probes_h62_p3, b_probes_h62_p3, 62, 3, 64);
+probes!(c26_probes_h64_p3, b_probes_h64_p3, 64, 3, 64);
+
+fn same(a: f64, b: f64) -> bool {
+    a.to_bits() == b.to_bits() || (a.is_nan() && b.is_nan())
+}
+
+/// manhattan (no multiplication): symmetric, non-negative, zero on identical finite inputs
+fn manhattan_laws(a: &[f32], b: &[f32]) -> Result<(), String> {
+    let m = manhattan_distance(a, b);
+    check!(same(m, manhattan_distance(b, a)), "manhattan symmetric");
+    check!(m >= 0.0, "manhattan non-negative");
+    check!(manhattan_distance(a, a) == 0.0, "manhattan zero on identical");
+    Ok(())
+}
+
+pub fn b_float_manhattan1<S: Src>(s: &mut S) -> Result<(), String> {
+    let a = [s.f32()];
+    let b = [s.f32()];
+    s.assume(a[0].is_finite() && b[0].is_finite());
+    cover!(manhattan_distance(&a, &b) > 0.0, "positive distance");
+    manhattan_laws(&a, &b)
+}
+harness!(c26_float_manhattan1, b_float_manhattan1, 3);
+
+pub fn b_float_manhattan2<S: Src>(s: &mut S) -> Result<(), String> {
+    let a = [s.f32(), s.f32()];
+    let b = [s.f32(), s.f32()];
+    s.assume(a[0].is_finite() && a[1].is_finite() && b[0].is_finite() && b[1].is_finite());
+    cover!(manhattan_distance(&a, &b) > 0.0, "positive distance");
+    manhattan_laws(&a, &b)
+}
+harness!(c26_float_manhattan2, b_float_manhattan2, 4);
+
+/// squared euclidean, dimension 1: non-negative and zero on identical finite inputs
+/// (symmetry needs multiplier equivalence, which CBMC does not finish: outside the claim)
+pub fn b_float_euclid1<S: Src>(s: &mut S) -> Result<(), String> {
+    let a = [s.f32()];
+    let b = [s.f32()];
+    s.assume(a[0].is_finite() && b[0].is_finite());
+    let e = euclidean_distance_squared(&a, &b);
+    cover!(e > 0.0, "positive distance");
+    check!(e >= 0.0, "euclidean^2 non-negative");
+    check!(euclidean_distance_squared(&a, &a) == 0.0, "euclidean^2 zero on identical");
+    Ok(())
+}
+harness!(c26_float_euclid1, b_float_euclid1, 3);
+
+/// dimension mismatch conventions (documented: INFINITY / 0.0)
+pub fn b_float_mismatch<S: Src>(s: &mut S) -> Result<(), String> {
+    let a = [s.f32(), s.f32()];
+    let b = [s.f32()];
+    check!(euclidean_distance_squared(&a, &b) == f64::INFINITY, "mismatch -> INFINITY");
+    check!(manhattan_distance(&b, &a) == f64::INFINITY, "mismatch -> INFINITY");
+    check!(dot_product(&a, &b) == 0.0, "mismatch -> 0");
+    Ok(())
+}
+harness!(c26_float_mismatch, b_float_mismatch, 4);
+
+/// int8 kernels, dimension 3, every i8
+pub fn b_int8_dist3<S: Src>(s: &mut S) -> Result<(), String> {
+    let a = [s.i8(), s.i8(), s.i8()];
+    let b = [s.i8(), s.i8(), s.i8()];
+    let m = manhattan_distance_int8(&a, &b);
+    let d = dot_product_int8(&a, &b);
+    cover!(m > 700.0, "large distance");
+    check!(m == manhattan_distance_int8(&b, &a), "manhattan_int8 symmetric");
+    check!(d == dot_product_int8(&b, &a), "dot_int8 symmetric");
+    check!(m >= 0.0, "manhattan_int8 non-negative");
+    check!(manhattan_distance_int8(&a, &a) == 0.0, "manhattan_int8 zero on identical");
+    check!((m == 0.0) == (a == b), "manhattan_int8 zero iff equal");
+    Ok(())
+}
+harness!(c26_int8_dist3, b_int8_dist3, 5);
+
+/// euclidean_int8 (uses sqrt): dimension 1
+pub fn b_int8_euclid1<S: Src>(s: &mut S) -> Result<(), String> {
+    let a = [s.i8()];
+    let b = [s.i8()];
+    let e = euclidean_distance_int8(&a, &b);
+    check!(same(e, euclidean_distance_int8(&b, &a)), "euclidean_int8 symmetric");
+    check!(e >= 0.0, "euclidean_int8 non-negative");
+    check!(euclidean_distance_int8(&a, &a) == 0.0, "euclidean_int8 zero on identical");
+    Ok(())
+}
+harness!(c26_int8_euclid1, b_int8_euclid1, 3);
+
+pub fn register(v: &mut Vec<(&'static str, NativeBody)>) {
+    v.push(("c26_hamming", b_hamming::<NativeSrc>));
+    v.push(("c26_probes_h0_p3", b_probes_h0_p3::<NativeSrc>));
+    v.push(("c26_probes_h1_p4", b_probes_h1_p4::<NativeSrc>));
+    v.push(("c26_probes_h2_p0", b_probes_h2_p0::<NativeSrc>));
+    v.push(("c26_probes_h2_p8", b_probes_h2_p8::<NativeSrc>));
+    v.push(("c26_probes_h3_p8", b_probes_h3_p8::<NativeSrc>));
+    v.push(("c26_probes_h4_p16", b_probes_h4_p16::<NativeSrc>));
+    v.push(("c26_probes_h62_p3", b_probes_h62_p3::<NativeSrc>));
+    v.push(("c26_probes_h64_p3", b_probes_h64_p3::<NativeSrc>));
+    v.push(("c26_float_manhattan1", b_float_manhattan1::<NativeSrc>));
+    v.push(("c26_float_manhattan2", b_float_manhattan2::<NativeSrc>));
+    v.push(("c26_float_euclid1", b_float_euclid1::<NativeSrc>));
+    v.push(("c26_float_mismatch", b_float_mismatch::<NativeSrc>));
+    v.push(("c26_int8_dist3", b_int8_dist3::<NativeSrc>));
+    v.push(("c26_int8_euclid1", b_int8_euclid1::<NativeSrc>));
+}
